@@ -38,7 +38,8 @@ struct Config {
     double deadline = 1e18;
     std::string one_spec, one_prec, one_rprec, one_input; bool one = false, has_input = false;
     std::string seeds, dump;
-    int prec_levels = 3;         // term precedence values 0..prec_levels-1
+    int prec_levels = 3;         // term precedence values prec_base..prec_base+prec_levels-1
+    int prec_base = 0;
     int rprec_max = 0;           // explicit rule precedence values 1..rprec_max on at most rprec_rules rules
     int rprec_rules = 1;
     bool rich = false;           // additionally explore inputs over the terminals plus space, newline and a foreign byte (C01/C09)
@@ -122,8 +123,9 @@ static void parse_prec(const std::string& p, const std::string& rp, Gram& g) {
     }
     i = 0; int r = 0;
     while (i < rp.size() && r < g.R) {
+        int sign = 1; if (rp[i] == '-') { sign = -1; ++i; }
         int v = 0; while (i < rp.size() && isdigit((unsigned char)rp[i])) v = v * 10 + (rp[i++] - '0');
-        g.rprec[r++] = v; if (i < rp.size() && rp[i] == ',') ++i;
+        g.rprec[r++] = sign * v; if (i < rp.size() && rp[i] == ',') ++i;
     }
 }
 
@@ -195,6 +197,7 @@ static TblCmp compare_tables(const Gram& g, const ref::LR1& L, const TableDump& 
 struct DiagState { std::vector<std::string> sits, acts; };
 struct Diag { bool ok = false; std::string why; long nstates_hdr = -1; std::vector<std::string> rules; std::vector<DiagState> st; };
 
+static std::string norm_ws(const std::string& s) { std::string o; bool sp = false; for (char c : s) { if (c == ' ' || c == '\t') { sp = true; continue; } if (sp && !o.empty()) o += ' '; sp = false; o += c; } return o; }
 static Diag split_diag(const std::string& text) {
     Diag D;
     std::vector<std::string> ln; { size_t p = 0; while (p <= text.size()) { size_t e = text.find('\n', p); if (e == std::string::npos) { ln.push_back(text.substr(p)); break; } ln.push_back(text.substr(p, e - p)); p = e + 1; } }
@@ -247,13 +250,14 @@ static std::string check_diag(const Gram& g, const ref::LR1& L, const TableDump&
         std::string exp = std::to_string(r) + "    " + nt_name(g, g.lhs[r]) + " <- ";
         if (g.n[r] > 0) exp += sym_name(g, g.rhs[r][0]);
         if (max_arity > 1) for (int j = 1; j < g.n[r]; ++j) exp += " " + sym_name(g, g.rhs[r][j]);
-        if (D.rules[r] != exp) return "RULES line " + std::to_string(r) + " is '" + D.rules[r] + "' but rule " + std::to_string(r) + " (the number used by reduce actions) is '" + exp + "'";
+        if (norm_ws(D.rules[r]) != norm_ws(exp)) return "RULES line " + std::to_string(r) + " is '" + D.rules[r] + "' but rule " + std::to_string(r) + " (the number used by reduce actions) is '" + exp + "'";
     }
     std::string conflict_problem;
     for (int s = 0; s < d.nstates; ++s) {
         std::vector<std::string> exp;
         for (int c = 0; c < ref::ITEM_SPACE; ++c) if (d.items[s].test(c)) { int r, dot, la; ref::item_decode(c, r, dot, la); exp.push_back(item_text(g, r, dot, la)); }
         std::vector<std::string> got = D.st[s].sits;
+        for (auto& x : exp) x = norm_ws(x); for (auto& x : got) x = norm_ws(x);
         std::sort(exp.begin(), exp.end()); std::sort(got.begin(), got.end());
         if (exp != got) return "state " + std::to_string(s) + ": listed items are not the table's item set";
         int rs = s < (int)tc.c2ref.size() ? tc.c2ref[s] : -1;
@@ -292,10 +296,13 @@ static std::string check_diag(const Gram& g, const ref::LR1& L, const TableDump&
                     bool is_rr_line = e.kind == 5;
                     if (is_rr_line && !(rc->nred >= 2 || (rc->accept && rc->nred >= 1))) conflict_problem = "state " + std::to_string(s) + " on " + term_name(g, t) + ": R/R line but fewer than two reductions there";
                     if (!is_rr_line && !(rc->shift && rc->nred >= 1)) conflict_problem = "state " + std::to_string(s) + " on " + term_name(g, t) + ": S/R line but no shift/reduce pair there";
+                    // one line per cell: an unresolvable reduce/reduce conflict must not hide behind a "resolved" S/R line
+                    if (!is_rr_line && rc->nred >= 2 && conflict_problem.empty()) conflict_problem = "state " + std::to_string(s) + " on " + term_name(g, t) + ": reduce/reduce conflict (" + std::to_string(rc->nred) + " reductions) not reported, only an S/R line";
                 }
             }
         }
-        if (ea != D.st[s].acts) {
+        { std::vector<std::string> na, nb; for (auto& x : ea) na.push_back(norm_ws(x)); for (auto& x : D.st[s].acts) nb.push_back(norm_ws(x)); if (na == nb) continue; }
+        {
             std::string a, b;
             for (size_t k = 0; k < std::max(ea.size(), D.st[s].acts.size()); ++k) {
                 std::string x = k < ea.size() ? ea[k] : "<none>", y = k < D.st[s].acts.size() ? D.st[s].acts[k] : "<none>";
@@ -341,10 +348,22 @@ struct DumpTable {   // the dumped real table seen through the driver's table co
 // ------------------------------------------------------------------------------------------------ C16: verbose trace walk
 // Replays the verbose text against the dumped table and the functor log. Returns "" if the trace is a truthful,
 // complete account of a run of that table on this input that made exactly the logged functor calls.
+static std::string cname(unsigned char c) { if (c > 32 && c < 127) return std::string(1, char(c)); char b[8]; std::snprintf(b, sizeof b, "\\x%02X", c); return b; }
 static std::string walk_trace(const Gram& g, const TableDump& d, const std::string& input, const std::string& text, bool result_ok, std::string* filtered) {
-    std::vector<std::string> ln; { size_t p = 0; while (p < text.size()) { size_t e = text.find('\n', p); if (e == std::string::npos) return "trace does not end with a newline"; ln.push_back(text.substr(p, e - p)); p = e + 1; } }
-    std::vector<int> st{0}; size_t pos = 0; int cur = -1; bool recovery = false, consume = false; size_t logi = 0; bool done = false; bool success = false;
-    auto pfx = [&](size_t col) { return "[1:" + std::to_string(col + 1) + "]"; };
+    std::vector<std::string> ln; { size_t p = 0; while (p < text.size()) { size_t e = text.find('\n', p); if (e == std::string::npos) return "trace does not end with a newline";
+        { std::string one = text.substr(p, e - p); while (!one.empty() && one.back() == ' ') one.pop_back(); ln.push_back(one); } p = e + 1; } }   // trailing blanks are not significant
+    std::vector<int> st{0}; size_t off = 0; int cur = -1; bool recovery = false, consume = false; size_t logi = 0; bool done = false; bool success = false;
+    auto linecol = [&](size_t o) { int l = 1, c = 1; for (size_t k = 0; k < o && k < input.size(); ++k) { if (input[k] == '\n') { ++l; c = 1; } else ++c; } return std::make_pair(l, c); };
+    auto pfx = [&](size_t o) { auto lc = linecol(o); return "[" + std::to_string(lc.first) + ":" + std::to_string(lc.second) + "]"; };
+    auto skipws = [&]() { while (off < input.size() && (input[off] == ' ' || input[off] == '\n')) ++off; };
+    std::vector<std::string> pending_regex;
+    // what dfa_match must print when it is started at `from` (DESIGN C16: the REGEX MATCH lines are a walk of the dumped lexer table)
+    auto lexer_lines = [&](size_t from) { std::vector<std::string> out; if (!d.nlex) return out; int s = 0; size_t p = from; auto lc = linecol(from); int L = lc.first, C = lc.second;
+        while (true) { std::string sp = "[" + std::to_string(L) + ":" + std::to_string(C) + "]"; uint16_t rec = d.lex_rec[s]; if (rec != 0xffff) out.push_back(sp + " REGEX MATCH: Recognized " + std::to_string(rec));
+            if (p >= input.size()) break; uint16_t tr = d.lex_trans[(size_t)s * 256 + (unsigned char)input[p]]; if (tr == 0xffff) break; s = tr;
+            out.push_back(sp + " REGEX MATCH: Current char " + cname((unsigned char)input[p])); out.push_back(sp + " REGEX MATCH: New state " + std::to_string(s));
+            if (input[p] == '\n') { ++L; C = 1; } else ++C; ++p; }
+        return out; };
     for (size_t li = 0; li < ln.size(); ++li) {
         const std::string& l = ln[li];
         auto bad = [&](const std::string& w) { return "line " + std::to_string(li) + " '" + l + "': " + w; };
@@ -352,17 +371,29 @@ static std::string walk_trace(const Gram& g, const TableDump& d, const std::stri
         size_t sp = l.find(' ');
         if (sp == std::string::npos) return bad("unrecognised line");
         std::string head = l.substr(0, sp), rest = l.substr(sp + 1);
-        if (rest.rfind("REGEX MATCH: ", 0) == 0) continue;   // lexer walk: judged by C04's engine
+        if (rest.rfind("REGEX MATCH: ", 0) == 0) { pending_regex.push_back(l); continue; }
         if (rest.rfind("PARSE: ", 0) != 0) return bad("unrecognised line");
         rest = rest.substr(7);
-        if (head != pfx(pos)) return bad("position prefix should be " + pfx(pos));
+        const bool lexing_line = rest.rfind("Recognized ", 0) == 0 || rest.rfind("Unexpected character: ", 0) == 0;
+        if (lexing_line) skipws();
+        if (!lexing_line && !pending_regex.empty()) return bad("lexer trace lines not followed by a recognised term or a lexical error");
+        if (head != pfx(off)) return bad("position prefix should be " + pfx(off));
         int look = recovery ? g.err() : cur;
         auto cell = [&]() -> const CellDump& { return d.at(st.back(), g.NT + 1 + look); };
         if (rest.rfind("Recognized ", 0) == 0) {
-            std::string nm = rest.substr(11); if (nm.empty() || nm.back() != ' ') return bad("format"); nm.pop_back();
-            int t = pos < input.size() ? input[pos] - 'a' : g.eof();
-            if (nm != term_name(g, t)) return bad("recognised term is not the term at the current position");
+            std::string nm = rest.substr(11); if (nm.empty()) return bad("format");
+            int t = off < input.size() ? (input[off] >= 'a' && input[off] < 'a' + g.T ? input[off] - 'a' : -9) : g.eof();
+            if (t == -9 || nm != term_name(g, t)) return bad("recognised term is not the term at the current position");
+            if (d.nlex) { std::vector<std::string> want = t == g.eof() ? std::vector<std::string>{} : lexer_lines(off); if (pending_regex != want) return bad("the REGEX MATCH lines before it are not a walk of the lexer table from this position (" + std::to_string(pending_regex.size()) + " lines, expected " + std::to_string(want.size()) + ")"); }
+            pending_regex.clear();
             cur = t;
+        } else if (rest.rfind("Unexpected character: ", 0) == 0) {
+            if (off >= input.size() || rest != "Unexpected character: " + std::string(1, input[off])) return bad("wrong byte or position");
+            if (input[off] >= 'a' && input[off] < 'a' + g.T) return bad("a term matches here");
+            if (d.nlex && pending_regex != lexer_lines(off)) return bad("the REGEX MATCH lines before it are not a walk of the lexer table");
+            pending_regex.clear();
+            if (filtered) *filtered += l + "\n";
+            done = true;
         } else if (rest.rfind("Shift to ", 0) == 0) {
             long n = std::atol(rest.c_str() + 9); size_t tp = rest.find(", term: "); if (tp == std::string::npos) return bad("format");
             std::string sv = rest.substr(tp + 8);
@@ -371,13 +402,13 @@ static std::string walk_trace(const Gram& g, const TableDump& d, const std::stri
             if (recovery) {
                 if (c.kind != 3 || c.arg != n || sv != "<error_recovery_token>") return bad("table has no such error shift");
                 st.push_back((int)n);
-                if (li + 2 >= ln.size() || ln[li + 1].find("PARSE: Leaving recovery mode ") == std::string::npos || ln[li + 2].find("PARSE: Entering consume mode ") == std::string::npos) return bad("error shift not followed by mode changes");
+                if (li + 2 >= ln.size() || ln[li + 1] != pfx(off) + " PARSE: Leaving recovery mode" || ln[li + 2] != pfx(off) + " PARSE: Entering consume mode") return bad("error shift not followed by mode changes");
                 recovery = false; consume = true;
             } else {
                 if (c.kind != 2 || c.arg != n) return bad("table does not shift to that state here");
-                if (pos >= input.size() || sv != std::string(1, input[pos])) return bad("lexeme is not the input slice");
-                if (logi >= g_obs.log.size() || g_obs.log[logi].kind != 0 || g_obs.log[logi].a != cur || g_obs.log[logi].off != (int)pos) return bad("no matching term functor call");
-                ++logi; st.push_back((int)n); ++pos; cur = -1;
+                if (off >= input.size() || sv != std::string(1, input[off])) return bad("lexeme is not the input slice");
+                if (logi >= g_obs.log.size() || g_obs.log[logi].kind != 0 || g_obs.log[logi].a != cur || g_obs.log[logi].off != (int)off) return bad("no matching term functor call");
+                ++logi; st.push_back((int)n); ++off; cur = -1;
             }
         } else if (rest.rfind("Reduced using rule ", 0) == 0) {
             long r = std::atol(rest.c_str() + 19);
@@ -386,47 +417,49 @@ static std::string walk_trace(const Gram& g, const TableDump& d, const std::stri
             if (!((c.kind == 4 || c.kind == 5) && c.rule == r)) return bad("table does not reduce by that rule here");
             if (r < 0 || r >= g.R) return bad("rule number out of range");
             std::string exp = "Reduced using rule " + std::to_string(r) + "  " + rule_text(g, (int)r);
+            while (!exp.empty() && exp.back() == ' ') exp.pop_back();
             if (rest != exp) return bad("rule text should be '" + exp + "'");
             if ((int)st.size() <= g.n[r]) return bad("stack too short");
             st.resize(st.size() - g.n[r]);
             if (li + 1 >= ln.size()) return bad("no Go to line");
             const std::string& gl = ln[++li];
             const CellDump& gc = d.at(st.back(), g.lhs[r]);
-            std::string gexp = pfx(pos) + " PARSE: Go to " + std::to_string(gc.arg);
+            std::string gexp = pfx(off) + " PARSE: Go to " + std::to_string(gc.arg);
             if (gl != gexp || !(gc.kind == 2)) return "line " + std::to_string(li) + " '" + gl + "': goto should be '" + gexp + "'";
             st.push_back(gc.arg);
             if (logi >= g_obs.log.size() || g_obs.log[logi].kind != 1 || g_obs.log[logi].a != r) return bad("no matching rule functor call");
             ++logi;
-        } else if (rest == "Success ") {
+        } else if (rest == "Success") {
             if (look < 0 || cell().kind != 1) return bad("table does not accept here");
             done = true; success = true;
         } else if (rest.rfind("Syntax error: Unexpected '", 0) == 0) {
             if (look < 0 || recovery || consume || cell().kind != 0) return bad("no error in the table here");
             if (rest != "Syntax error: Unexpected '" + term_name(g, cur) + "'") return bad("wrong term named");
             if (filtered) *filtered += l + "\n";
-            if (li + 1 >= ln.size() || ln[li + 1] != pfx(pos) + " PARSE: Entering recovery mode ") return bad("not followed by 'Entering recovery mode'");
+            if (li + 1 >= ln.size() || ln[li + 1] != pfx(off) + " PARSE: Entering recovery mode") return bad("not followed by 'Entering recovery mode'");
             ++li; recovery = true;
         } else if (rest.rfind("Recovering to state ", 0) == 0) {
             if (!recovery) return bad("pop outside recovery mode");
             st.pop_back();
             if (st.empty() || st.back() != std::atol(rest.c_str() + 20)) return bad("wrong state after pop");
-        } else if (rest == "Could not recover from error ") {
+        } else if (rest == "Could not recover from error") {
             if (!recovery || st.size() != 1) return bad("gave up although states remain on the stack");
             st.pop_back(); done = true;
-        } else if (rest == "Leaving recovery mode " || rest == "Entering consume mode ") {
+        } else if (rest == "Leaving recovery mode" || rest == "Entering consume mode") {
             // checked together with the error shift
-        } else if (rest == "Leaving consume mode ") {
+        } else if (rest == "Leaving consume mode") {
             if (!consume || look < 0 || cell().kind == 0) return bad("left consume mode on a term without action");
             consume = false;
         } else if (rest.rfind("Recovery, consuming term ", 0) == 0) {
             if (!consume || look < 0 || cell().kind != 0 || cur == g.eof()) return bad("discarded a term that has an action");
-            if (rest != "Recovery, consuming term " + term_name(g, cur) + " ") return bad("wrong term named");
-            ++pos; cur = -1;
+            if (rest != "Recovery, consuming term " + term_name(g, cur)) return bad("wrong term named");
+            ++off; cur = -1;
         } else return bad("unrecognised PARSE line");
     }
+    if (!pending_regex.empty()) return "lexer trace lines at the end of the trace";
     if (success != result_ok) return "trace ends with" + std::string(success ? "" : "out") + " Success but the call returned " + (result_ok ? "a value" : "nothing");
     if (!done) {
-        // legitimate silent endings: end of input while discarding
+        // legitimate silent ending: end of input while discarding
         if (!(consume && cur == g.eof())) return "trace stops without Success or a failure";
     }
     if (logi != g_obs.log.size()) return "functor calls not accounted for by the trace";
@@ -437,6 +470,8 @@ static std::string walk_trace(const Gram& g, const TableDump& d, const std::stri
 struct Ctx { ref::StrSpace sp, deep; ref::Lang lang; TableDump dump; };
 static std::map<int, Ctx> ctxs;   // by T
 
+static Ctx& ctx_for(int T);
+static const TableDump& cx_dump_for_rich(const Gram& g) { return ctx_for(g.T).dump; }
 static Ctx& ctx_for(int T) {
     auto it = ctxs.find(T);
     if (it == ctxs.end()) { Ctx& c = ctxs[T]; c.sp.init(T, cfg.maxlen); c.deep.init(T, cfg.deeplen > cfg.maxlen ? (T >= 3 ? std::min(cfg.deeplen, cfg.maxlen + 2) : cfg.deeplen) : cfg.maxlen); return c; }
@@ -550,7 +585,7 @@ static void explore_strings(FrameBase& f, const Gram& g, const ref::LR1& L, Ctx&
             ParseObs rv = f.parse(w.data(), w.size(), PM_VERBOSE_OSTREAM); ctr["parses"]++;
             size_t e = rv.err.find("Syntax error"); if (e != std::string::npos && rv.err.find("Recognized", e) != std::string::npos) add_viol("C09", "input-examined-after-error", f, g, w, "terms recognised after the error was reported");
         }
-        if ((cfg.has("C06") || cfg.has("C12")) && !err_gram) {
+        if ((cfg.has("C06") || cfg.has("C12")) && (!err_gram || cfg.has("C06"))) {
             ParseObs rc = f.parse(w.data(), w.size(), PM_CHECKED); ctr["parses"]++;
             std::string sc = log_sig();
             if (cfg.has("C06")) {
@@ -560,7 +595,7 @@ static void explore_strings(FrameBase& f, const Gram& g, const ref::LR1& L, Ctx&
                 else if (rc.ok != ro.ok || sc != real_sig) add_viol("C06", "buffer-kind-changes-outcome", f, g, w, "checked user buffer vs string_view_buffer differ");
                 outcomes["C06"].insert(std::string(rc.ok ? "ok" : "fail") + std::to_string(std::min<size_t>(w.size(), 3)));
             }
-            if (f.max_cstr > 0 && (int)w.size() < f.max_cstr) {
+            if (!err_gram && f.max_cstr > 0 && (int)w.size() < f.max_cstr) {
                 ParseObs rs = f.parse(w.data(), w.size(), PM_CSTRING); ctr["parses"]++;
                 std::string ss = log_sig();
                 int cap = f.stack_capacity(w.size());
@@ -599,6 +634,7 @@ static std::vector<std::string>& rich_words(int T, int maxlen) {
     }
     return v;
 }
+static const TableDump& cx_dump_for_rich(const Gram& g);
 static void explore_rich(FrameBase& f, const Gram& g, const ref::LR1& L) {
     ref::RefTable rt{L}; const bool reduced_gram = ref::is_reduced(g);
     for (const std::string& w : rich_words(g.T, cfg.maxlen)) {
@@ -626,6 +662,19 @@ static void explore_rich(FrameBase& f, const Gram& g, const ref::LR1& L) {
             outcomes["C09"].insert(ex.ok ? "silent-success-ws" : ex.lex_error ? "lexical-error" : "syntax-error-ws");
             if (ex.lex_error || ex.ok || reduced_gram) { if (ro.err != want) add_viol("C09", ex.ok ? "output-on-success" : ro.err.empty() ? "silent-failure" : "wrong-report", f, g, w, "input '" + in_vis + "': stream '" + ro.err + "' expected '" + want + "'"); }
             if (ro.ok != ro.err.empty()) add_viol("C09", "result-vs-report", f, g, w, "input '" + in_vis + "'");
+        }
+        if (cfg.has("C16")) {
+            ctr["C16.evals"]++;
+            std::string base_sig = log_sig(), base_err = ro.err;
+            ParseObs r1 = f.parse(w.data(), w.size(), PM_NOSTREAM); std::string s1 = log_sig();
+            if (r1.ok != ro.ok || s1 != base_sig) add_viol("C16", "no-stream-differs", f, g, w, "input '" + in_vis + "': with no stream ok=" + std::to_string(r1.ok) + ", with ostream ok=" + std::to_string(ro.ok));
+            ParseObs r3 = f.parse(w.data(), w.size(), PM_VERBOSE_USER); std::string s3 = log_sig(), t3 = r3.err;
+            ParseObs r2 = f.parse(w.data(), w.size(), PM_VERBOSE_OSTREAM); std::string s2 = log_sig(); ctr["parses"] += 3;
+            if (r2.ok != ro.ok || s2 != base_sig) add_viol("C16", "verbose-changes-outcome", f, g, w, "input '" + in_vis + "'");
+            else if (r3.ok != ro.ok || s3 != base_sig || t3 != r2.err) add_viol("C16", "stream-type-changes-outcome", f, g, w, "input '" + in_vis + "'");
+            else { std::string filtered, why = walk_trace(g, cx_dump_for_rich(g), w, r2.err, r2.ok, &filtered);
+                if (!why.empty()) add_viol("C16", "untruthful-trace", f, g, w, "input '" + in_vis + "': " + why);
+                else if (filtered != base_err) add_viol("C16", "messages-differ-in-verbose", f, g, w, "input '" + in_vis + "'"); outcomes["C16"].insert(std::string("ws-") + (ro.ok ? "ok" : ex.lex_error ? "lexerr" : "syntax")); }
         }
     }
 }
@@ -764,7 +813,7 @@ static void explore(FrameBase& f, const Gram& g) {
         if (!seen.insert(key).second) { ctr["C05.assignments_with_table_already_driven"]++; strings = false; }
     }
     if (strings) explore_strings(f, g, *L, cx, d, lr1, tc.equal);
-    if (strings && cfg.rich && lr1 && diag_clean && !err_gram) explore_rich(f, g, *L);
+    if (strings && cfg.rich && lr1 && diag_clean && !err_gram) explore_rich(f, g, *L);   // cx.dump still holds this grammar's table
 }
 
 // ------------------------------------------------------------------------------------------------ enumeration
@@ -815,9 +864,9 @@ static void enumerate_frame(FrameBase& f) {
         unsigned long long np = 1; for (size_t k = 0; k < tl.size(); ++k) np *= (unsigned long long)cfg.prec_levels * 3;
         for (unsigned long long pi = 0; pi < np; ++pi) {
             Gram gp = g; unsigned long long y = pi;
-            for (int t : tl) { gp.tprec[t] = int(y % cfg.prec_levels); y /= cfg.prec_levels; gp.tassoc[t] = int(y % 3); y /= 3; }
+            for (int t : tl) { gp.tprec[t] = int(y % cfg.prec_levels) + cfg.prec_base; y /= cfg.prec_levels; gp.tassoc[t] = int(y % 3); y /= 3; }
             run_one(gp); ctr["C05.assignments"]++;
-            if (cfg.rprec_max > 0) for (int r : rl) for (int v = 1; v <= cfg.rprec_max; ++v) { Gram gq = gp; gq.rprec[r] = v; run_one(gq); ctr["C05.assignments"]++; }
+            if (cfg.rprec_max > 0) for (int r : rl) for (int v = -1; v <= cfg.rprec_max; ++v) { if (v == 0) continue; Gram gq = gp; gq.rprec[r] = v; run_one(gq); ctr["C05.assignments"]++; }
         }
     }
 }
@@ -867,6 +916,7 @@ int main(int argc, char** argv) {
         else if (a == "--custom") cfg.custom = std::atoi(next().c_str());
         else if (a == "--deadline") cfg.deadline = std::atof(next().c_str());
         else if (a == "--prec-levels") cfg.prec_levels = std::atoi(next().c_str());
+        else if (a == "--prec-base") cfg.prec_base = std::atoi(next().c_str());
         else if (a == "--rprec-max") cfg.rprec_max = std::atoi(next().c_str());
         else if (a == "--with-prec") cfg.with_prec = true;
         else if (a == "--rich") cfg.rich = true;
